@@ -234,7 +234,11 @@ def handle (req : Json) : Except String Json := do
   let op ← req.getObjValAs? String "op"
   match op with
   | "simplify.pass" => do
-    let p ← passOf (← req.getObjValAs? String "pass")
+    let pname ← req.getObjValAs? String "pass"
+    if pname == "reduce_affine_expression" then
+      let m ← parseModel (← req.getObjVal? "state")
+      return Json.mkObj [("ok", true), ("raised", Json.null), ("state", showModel (reduceAffine m))]
+    let p ← passOf pname
     let m ← parseModel (← req.getObjVal? "state")
     let o ← parseOpts (← req.getObjVal? "opts")
     let E ← parseEngine req
